@@ -1,12 +1,7 @@
 import BadgerModel.Driver.Codec
+import BadgerModel.Driver.Loop
 /-! `bmdriver <engine>`: reads one op per line on stdin, prints one canonical output line per op. -/
 open Badger.Driver
-
-partial def statelessLoop (h : IO.FS.Stream) (out : IO.FS.Stream) (f : String → String) : IO Unit := do
-  let line ← h.getLine
-  if line.isEmpty then return ()
-  out.putStrLn (f (chomp line))
-  statelessLoop h out f
 
 def main (args : List String) : IO UInt32 := do
   let stdin ← IO.getStdin
